@@ -36,7 +36,7 @@ DEFAULT_MEM_GB = int(os.environ.get("VERIF_MEM_GB", "20"))
 
 TRUSTED_BASE = [
     "Kani 0.68.0 / CBMC 6.11.0 / CaDiCaL (compiler front end rustc->MIR->GOTO, bit-precise semantics, SAT back end)",
-    "tokio replaced by /verif/models/tokio (single-threaded deterministic model of mpsc/oneshot/watch/locks/spawn/time; contracts from tokio docs; cross-checked natively against real tokio by /verif/conformance)",
+    "tokio replaced by /verif/models/tokio (single-threaded deterministic model of mpsc/oneshot/watch/locks/spawn/time; contracts from tokio docs; the synchronous operations the harnesses observe channels through are diffed natively against real tokio 1.49 by /verif/conformance during setup)",
     "tokio-util replaced by /verif/models/tokio-util (ReusableBoxFuture = Pin<Box<dyn Future>>; codec stubs unreachable)",
     "tracing replaced by /verif/models/tracing: every event/span macro and #[instrument] is a no-op (real tracing reaches code that crashes the Kani compiler)",
     "alloc::fmt::format stubbed to return an empty String where a harness says so (error texts are not the subject)",
@@ -112,6 +112,23 @@ def setup():
         if os.path.isdir(target_dir(k)):
             shutil.rmtree(target_dir(k))
         ensure_target(k)
+    # native conformance of the tokio model against real tokio (validates the stub, decides nothing)
+    clog = os.path.join(LOGS, "conformance.log")
+    try:
+        env = dict(os.environ)
+        env["CARGO_NET_OFFLINE"] = "true"
+        env["CARGO_TARGET_DIR"] = os.path.join(WORK, "conformance-target")
+        with open(clog, "w") as f:
+            r = subprocess.run(["cargo", "run", "--offline", "--quiet"], cwd=os.path.join(ROOT, "conformance"), env=env,
+                               stdout=f, stderr=subprocess.STDOUT, timeout=900)
+        tail = open(clog).read().strip().splitlines()[-1:] or [""]
+        if r.returncode == 1 and "DIFF" in open(clog).read():
+            print("setup: tokio model DIFFERS from real tokio, see %s" % clog)
+            sys.stdout.write(open(clog).read()[-2000:])
+            return 2
+        print("setup: model conformance: %s" % (tail[0] if r.returncode == 0 else "not run (build problem, see %s)" % clog))
+    except Exception as e:  # never let the auxiliary check break setup
+        print("setup: model conformance not run (%s)" % e)
     return 0
 
 
